@@ -1,6 +1,6 @@
 (* Properties_C13.v — C13: rotation yields self-contained files and loses, repeats or reorders nothing.
    Only statements live here. *)
-Require Import Base Cbor EncoderModel Schema Block BlockProofs Exporter ExporterProofs.
+Require Import Base Cbor EncoderModel DecoderModel Schema Block BlockProofs Exporter ExporterProofs E2ESpec BlockDecode ViewProofs BlockRead FileProofs EndToEnd.
 Local Open Scope N_scope.
 
 (* an output closed by a rotation receives no further bytes: later calls only put new outputs in front of it *)
@@ -53,6 +53,32 @@ Theorem C13_header_has_all_params : forall x,
               ops = write_val FilePreamble (VR [x_major x; x_minor x; x_private x; Some (VL (x_params x))]).
 Proof. intros x. eexists. split; reflexivity. Qed.
 Print Assumptions C13_header_has_all_params.
+
+(* every output closed by a rotation is by itself a complete file: the library's reader, run on its bytes alone, returns
+   the preamble in force when it was opened and exactly the blocks written to it, and consumes every byte; each of its blocks
+   refers to a parameter set of that preamble; the blocks of all outputs in rotation order, then those of the open output,
+   are the blocks written, in order, each once (admissible histories: a parameter set added while the output holds a block is
+   activated only after the next rotation — the documented caller duty) *)
+Theorem C13_outputs_self_contained : forall pre ops, typed_pre pre -> adm0 pre ops -> typed_x (xrun (x_new pre) ops) ->
+  let x := xrun (x_new pre) ops in
+  exists (last : val) cur closed,
+    x_closed x = map (fun pb => file_bytes (fst pb) (snd pb)) closed /\
+    destroy x = file_bytes last cur /\
+    x_done x = flat_map snd (rev closed) ++ cur /\
+    Forall reads_back ((last, cur) :: closed).
+Proof. exact history_outputs. Qed.
+Print Assumptions C13_outputs_self_contained.
+(* the records found by reading all outputs in rotation order are the records buffered, in order, each exactly once *)
+Theorem C13_records_across_outputs : forall pre ops, typed_pre pre -> adm0 pre ops -> typed_x (xrun (x_new pre) ops) ->
+  let x := xrun (x_new pre) ops in
+  exists (last : val) cur closed,
+    rev (x_closed x) = map (fun pb => file_bytes (fst pb) (snd pb)) (rev closed) /\
+    destroy x = file_bytes last cur /\
+    Forall reads_back (rev closed ++ [(last, cur)]) /\
+    flat_map file_view_qr (rev closed ++ [(last, cur)]) ++ blk_view_qr (x_blk x) = map Some (log_qr (x_new pre) ops) /\
+    flat_map file_view_mm (rev closed ++ [(last, cur)]) ++ blk_view_mm (x_blk x) = map Some (log_mm (x_new pre) ops).
+Proof. exact end_to_end. Qed.
+Print Assumptions C13_records_across_outputs.
 
 Example C13_nonvacuous :
   let pre := VR [Some (VN 1); Some (VN 0); None; Some (VL [VR [Some (VR [Some (VN 1000); Some (VN 10);
